@@ -14,16 +14,16 @@ import (
 // ---- the action language: deterministic native stubs whose behaviour is a symbolic choice ----
 
 const (
-	aIdent      = iota // returns the bindings it was given (same map)
-	aSet               // returns a copy with key := value
-	aDel               // returns a copy without key
-	aReplace           // returns a wholly different bindings map
-	aFail              // fails without an execution
-	aFailPartial       // fails but also returns an execution
-	aNilBs             // returns an execution without bindings (a guard's rejection)
-	aNilExe            // returns neither an execution nor an error
-	aFailInPlace       // deletes a binding from the map it was given, then fails, returning that map
-	aBareExe           // returns an Execution built by hand (&Execution{Bs: ...}: no Events inside)
+	aIdent       = iota // returns the bindings it was given (same map)
+	aSet                // returns a copy with key := value
+	aDel                // returns a copy without key
+	aReplace            // returns a wholly different bindings map
+	aFail               // fails without an execution
+	aFailPartial        // fails but also returns an execution
+	aNilBs              // returns an execution without bindings (a guard's rejection)
+	aNilExe             // returns neither an execution nor an error
+	aFailInPlace        // deletes a binding from the map it was given, then fails, returning that map
+	aBareExe            // returns an Execution built by hand (&Execution{Bs: ...}: no Events inside)
 	aKinds
 )
 
@@ -228,24 +228,24 @@ var (
 // ---- small compiled specs ----
 
 type specOpts struct {
-	actionMode int  // 0 never, 1 maybe, 2 always
-	noMessage  bool // branching type "message" not drawn
+	actionMode    int  // 0 never, 1 maybe, 2 always
+	noMessage     bool // branching type "message" not drawn
 	noNilBranches bool
-	patMode    int  // 0 no patterns, 1 vocabulary, 2 lazy JSON
-	fixedTarget bool // every target is "n1"
-	targetVars  bool // targets are "@k" / "@x" / "n1"
-	fixedErr   bool // ActionErrorBranches=false, ActionErrorNode=""
-	branches   int // max branches of the current node
-	patDepth   int
-	patWidth   int
-	withGuards bool
-	withInvalid bool // the vocabulary also offers a pattern the matcher rejects with an error
-	noLog      bool // stubs do not record their calls
-	small      bool // stub parameters from the smallest pools
-	pooled     bool // strings (binding names, targets) drawn from small pools instead of symbolic
-	actKinds   []int
-	grdKinds   []int
-	maxEmits   int
+	patMode       int  // 0 no patterns, 1 vocabulary, 2 lazy JSON
+	fixedTarget   bool // every target is "n1"
+	targetVars    bool // targets are "@k" / "@x" / "n1"
+	fixedErr      bool // ActionErrorBranches=false, ActionErrorNode=""
+	branches      int  // max branches of the current node
+	patDepth      int
+	patWidth      int
+	withGuards    bool
+	withInvalid   bool // the vocabulary also offers a pattern the matcher rejects with an error
+	noLog         bool // stubs do not record their calls
+	small         bool // stub parameters from the smallest pools
+	pooled        bool // strings (binding names, targets) drawn from small pools instead of symbolic
+	actKinds      []int
+	grdKinds      []int
+	maxEmits      int
 }
 
 // noLog: stubs keep no call log (the spec is frozen and must not be written, not even by the harness).
